@@ -17,7 +17,7 @@ func init() {
 		Technique: "static analysis: must-pass-through for metering calls with value identity of the I/O count, role-separated value-flow (up/down chains from valve to database key, database keys modelled as fields), lockset for the queue sections, dominance for verdict branches and the termination call chain",
 		Decided: "(d) every byte crossing the connection pool is metered: each successful write is followed by AddTx of that write's count, each read by AddRx of that read's count before the data is processed; " +
 			"(a) upload and download chains are separate end to end (valve counter → swap → queue → status → stored credit key) with no value flow from one direction's locations to the other's, and the status is filed under the UID of the valve's owner; " +
-			"(b) collection is an atomic swap-to-zero called only by the two queue-update functions, queue accumulation/insert and the snapshot-and-reset at commit are each one critical section of the queue lock; " +
+			"(b) collection is an atomic swap-to-zero called only by the two queue-update functions, queue accumulation/insert and the snapshot-and-reset at commit are each one critical section of the queue lock, and a store into the queue map happens only on the not-found edge of a look-up of the same key (an entry holding drained, not yet uploaded usage is never replaced); " +
 			"(e) TERMINATE verdicts are produced for missing bucket, credit <= 0 (both directions) and expiry, in the same transaction as the credit writes, and each TERMINATE for an active user reaches closeAllSessions, which closes every session.",
 		NotDecided:  "(c) arithmetic totals at quiescence ('stored = initial − carried'), loss when UploadStatus itself fails, traffic between the final collection and closeAllSessions — these need quiescence and history reasoning.",
 		Assumptions: []string{"atomic.SwapInt64/AddInt64 semantics", "bbolt Update runs its closure in one transaction"},
@@ -31,6 +31,7 @@ func runC16(c *Ctx) {
 	c16R4(c, "C16.R4")
 	c16R5(c, "C16.R5")
 	c16R6(c, "C16.R6")
+	c16R7(c, "C16.R7")
 }
 
 // isValveCall: invoke of Valve.<method> on the switchboard's valve
